@@ -1036,6 +1036,10 @@ func (fr *frame) copyBuiltin(args []Val, atypes []types.Type, reach Term, h Heap
 				srcArr := app("select", old, args[1].ts[0])
 				x.sc.assert(fmt.Sprintf("(forall ((i! Int)) (! (=> (and (<= 0 i!) (< i! %s)) (= (select %s %s) (select %s %s))) :pattern ((select %s %s))))",
 					nn, newArr, sidx(dst.ts[1], "i!"), srcArr, sidx(srcOff, "i!"), newArr, sidx(dst.ts[1], "i!")))
+				// the same fact indexed by the absolute position (a read through another slice of the same array - e.g.
+				// s[k] after copy(s[j+1:], s[j:]) - does not mention the destination's offset)
+				x.sc.assert(fmt.Sprintf("(forall ((j! Int)) (! (=> (and (<= %s j!) (< j! (+ %s %s))) (= (select %s j!) (select %s (+ %s (- j! %s))))) :pattern ((select %s j!))))",
+					dst.ts[1], dst.ts[1], nn, newArr, srcArr, srcOff, dst.ts[1], newArr))
 			}
 			x.sc.assert(fmt.Sprintf("(forall ((i! Int)) (! (=> (or (< i! %s) (>= i! (+ %s %s))) (= (select %s i!) (select %s i!))) :pattern ((select %s i!))))",
 				dst.ts[1], dst.ts[1], nn, newArr, dstArr, newArr))
